@@ -7,8 +7,8 @@
        file bytes at p_vaddr + base, zero fill up to p_memsz, R/W/X translated; None outside every PT_LOAD
    seg_wf file base ph      : a PT_LOAD header is well-formed (inside the file, filesz <= memsz, no u64 wrap)
    rebase_ok e B            : every address the object mentions, plus B, is still a u64 *)
-From Coq Require Import ZArith List String.
-From Falcon Require Import Base.Res Mem.Backing Mem.BackingSpec Mem.BackingProofs Mem.BackingShift Elf.ElfModel Elf.ElfProofs Elf.ElfLink.
+From Coq Require Import ZArith List String Lia.
+From Falcon Require Import Base.Res Mem.Backing Mem.BackingSpec Mem.BackingProofs Mem.BackingShift Mem.BackingFree Elf.ElfModel Elf.ElfProofs Elf.ElfLink Elf.ElfMips.
 Import ListNotations.
 Local Open Scope Z_scope.
 
@@ -103,6 +103,79 @@ Theorem reloc_once : forall (B : Z) (dynsyms : list sym) (st : symtab) (rs : lis
     (forall y, (forall r, In r rs -> ~ (r_offset r + B <= y < r_offset r + B + 4)) -> abs m' y = abs m y).
 Proof. exact relocs_x86_once. Qed.
 Print Assumptions reloc_once.
+
+(* [U] the general x86 pass, R_386_RELATIVE included: rel_val is the word a relocation must leave in its slot --
+   the registered address of its symbol mod 2^32 (R_386_32 / GLOB_DAT / JMP_SLOT), or the word found there plus
+   the object's base (R_386_RELATIVE: rebased once; the code's u32 addition must not overflow).  Slots pairwise
+   disjoint and inside one stored section: the pass succeeds, every slot reads its rel_val, layout and every other
+   cell unchanged *)
+Theorem reloc_once_relative : forall (B : Z) (dynsyms : list sym) (st : symtab) (rs : list rel) (m : sections Z),
+  wf 0 m -> 0 <= B -> ForallOrdPairs apart rs ->
+  Forall (fun r => 0 <= r_offset r /\ slot_ok m (r_offset r + B)) rs ->
+  Forall (fun r => exists w, rel_val B dynsyms st m r w) rs ->
+  exists m', relocs_x86 B dynsyms st rs m = Ok m' /\ wf 0 m' /\ shape m' = shape m /\
+    (forall r w, In r rs -> rel_val B dynsyms st m r w -> read32 false (abs m') (r_offset r + B) = Some w) /\
+    (forall y, (forall r, In r rs -> ~ (r_offset r + B <= y < r_offset r + B + 4)) -> abs m' y = abs m y).
+Proof. exact relocs_x86_all. Qed.
+Print Assumptions reloc_once_relative.
+
+(* [U] reloc_once for the whole two-object link, hypotheses on the DESCRIPTION only (link_wf: PT_LOAD headers
+   well-formed and pairwise apart within and across the objects, library without relocations of its own, main's
+   relocation slots pairwise disjoint and each inside one PT_LOAD of main): the link succeeds and every slot
+   reads the registered address of its symbol (= st_value + base of the defining object, reloc_once_partial).
+   "Inside one stored section" is discharged: disjoint PT_LOADs end as one stored section each (Mem/BackingFree.v) *)
+Theorem reloc_once_link : forall (main : elfd) (mrels : list rel) (lib : elfd) (lrels : list rel) (ex1 ex2 : list symbol),
+  link_wf main mrels lib lrels ->
+  exported 0 (e_dynsyms main) = Ok ex1 -> exported LIB_BASE (e_dynsyms lib) = Ok ex2 ->
+  Forall symbolic (mrels ++ e_pltrelocs main) ->
+  Forall (fun r => exists v, resolves (e_dynsyms main) (st_add (st_add [] ex1) ex2) r v) (mrels ++ e_pltrelocs main) ->
+  exists m', link2 main mrels lib lrels = Ok m' /\ wf 0 m' /\
+    forall r v, In r (mrels ++ e_pltrelocs main) -> resolves (e_dynsyms main) (st_add (st_add [] ex1) ex2) r v ->
+                read32 false (abs m') (r_offset r + 0) = Some (v mod 4294967296).
+Proof. exact link2_reloc_once. Qed.
+Print Assumptions reloc_once_link.
+
+(* link_wf is satisfiable: main = one 16-byte RW segment at 0x1000 with a JMP_SLOT for "f" at 0x1004,
+   library = one segment at 0x100 defining the global function f = 0x104; the slot ends up holding 0x42000104 *)
+Definition ex_main : elfd :=
+  mkelfd 3 false 4096 [mkph 1 6 0 4096 16 16] [1; 2; 3; 4; 5; 6; 7; 8; 9; 10; 11; 12; 13; 14; 15; 16]
+         [mksym "" 0 0 0; mksym "f" 0 0 18] [] [mkrel 4100 1 7] [].
+Definition ex_lib : elfd :=
+  mkelfd 3 false 0 [mkph 1 5 0 256 8 8] [1; 2; 3; 4; 5; 6; 7; 8] [mksym "" 0 0 0; mksym "f" 260 1 18] [] [] [].
+Example link_wf_example : link_wf ex_main [] ex_lib [].
+Proof.
+  constructor.
+  - repeat constructor; cbn; unfold U64, len, LIB_BASE; cbn; lia.
+  - repeat constructor; cbn; unfold U64, len, LIB_BASE; cbn; lia.
+  - repeat constructor.
+  - repeat constructor.
+  - intros a b [Ha|[]] [Hb|[]] _ _; subst; cbn; unfold LIB_BASE; lia.
+  - reflexivity.
+  - repeat constructor.
+  - repeat constructor; cbn; [lia|]. eexists. split; [left; reflexivity|]. cbn. lia.
+Qed.
+Example link_example :
+  option_map (fun m => read32 false (abs m) 4100) (match link2 ex_main [] ex_lib [] with Ok m => Some m | _ => None end)
+  = Some (Some 1107296516).
+Proof. vm_compute. reflexivity. Qed.
+
+(* [U] reloc_once for relocations_mips (both endiannesses): whenever the pass succeeds on an invariant memory, every
+   external global GOT entry (index i in [gotsym, symtabno), st_shndx = 0) holds the registered address of the
+   symbol it names mod 2^32 -- for a symbol of another object its st_value + that object's base, once
+   (reloc_once_partial) -- provided no R_MIPS_REL32 slot overlaps that GOT word *)
+Theorem reloc_once_mips : forall (be : bool) (B : Z) (dynsyms : list sym) (st : symtab) (dyns : list (Z * Z)) (rels : list rel)
+                                 (m m' : sections Z) (lg gs sn pg : Z),
+  wf 0 m -> 0 <= B -> 0 <= pg -> 0 <= lg ->
+  dyn_get dyns 1879048202 = Some lg -> dyn_get dyns 1879048211 = Some gs ->
+  dyn_get dyns 1879048209 = Some sn -> dyn_get dyns 3 = Some pg ->
+  relocs_mips be B dynsyms st dyns rels m = Ok m' ->
+  wf 0 m' /\
+  forall i s v, gs <= i < sn -> nth_sym dynsyms i = Some s -> s_shndx s = 0 -> st_get st (s_name s) = Some v ->
+    (forall r, In r rels -> r_type r = 3 ->
+       r_offset r + B + 4 <= pg + B + lg * 4 + 4 * (i - gs) \/ pg + B + lg * 4 + 4 * (i - gs) + 4 <= r_offset r + B) ->
+    read32 be (abs m') (pg + B + lg * 4 + 4 * (i - gs)) = Some (v mod U32).
+Proof. exact relocs_mips_once. Qed.
+Print Assumptions reloc_once_mips.
 
 (* the hypotheses are satisfiable: a two-segment object with zero fill, loaded at 0x1000 *)
 Example image_example :
